@@ -1,2 +1,3 @@
 import Kn.Pre
 import Kn.Lead
+import Kn.Loop
